@@ -208,6 +208,17 @@ def _fixture_provenance(ctx):
     """MultiClientPortCfgFixture(claim_event=<event with name == cfg.claim_event_name>, release_event=<... release ...>)"""
     run, prog = ctx.run, ctx.prog
     cmc = prog.func(PROC, 'check_multiclient_cfg')
+    # semantic first: create_dzn_elements interpreted on the scenario models (E7) - the fixture of the configured port holds the very
+    # events of the port's interface that carry the configured claim / release names
+    from .shared import dzn_elements_by_interpretation
+    sem = dzn_elements_by_interpretation(ctx)
+    if sem is not None:
+        mine = [p_ for p_ in sem['C04.validate'] if 'fixture does not hold' in p_ or 'is refused' in p_]
+        for fld in ('claim_event', 'release_event'):
+            run.add('C04.names', MOD, cmc.qualname, f'fixture.{fld}', not mine,
+                    f'{fld} of the fixture is the event of the port\'s interface that carries the configured name (create_dzn_elements interpreted, E7)'
+                    if not mine else '; '.join(mine[:2]))
+        return
     defs = {n.targets[0].id: n.value for n in iter_own_nodes(cmc.node)
             if isinstance(n, ast.Assign) and isinstance(n.targets[0], ast.Name)}
     ctor = next((c for c in iter_own_nodes(cmc.node) if isinstance(c, ast.Call) and
